@@ -7,6 +7,8 @@ package main
 
 import (
 	"crypto/ecdsa"
+	"crypto/ed25519"
+	"crypto/rsa"
 	"crypto/elliptic"
 	"crypto/rand"
 	"crypto/x509"
@@ -26,8 +28,62 @@ type leaf struct {
 	pad   int // extra bytes in the subject to vary certificate size
 }
 
+// extra adds leaves issued by CAs of other key types (run: genfixtures <outdir> extra);
+// the original fixtures are left untouched.
+func extra(out string) {
+	rsaKey, err := rsa.GenerateKey(rand.Reader, 2048)
+	if err != nil {
+		panic(err)
+	}
+	edPub, edKey, _ := ed25519.GenerateKey(rand.Reader)
+	cas := []struct {
+		name string
+		pub  interface{}
+		key  interface{}
+	}{{"ca-rsa", &rsaKey.PublicKey, rsaKey}, {"ca-ed25519", edPub, edKey}}
+	leaves := []leaf{
+		{"e-p256", elliptic.P256(), []string{"fifth.example"}, 0},
+		{"f-p384", elliptic.P384(), []string{"sixth.example"}, 20},
+	}
+	for i, ca := range cas {
+		caT := &x509.Certificate{
+			SerialNumber: big.NewInt(int64(2 + i)), Subject: pkix.Name{CommonName: "verif sim " + ca.name},
+			NotBefore: time.Unix(1500000000, 0), NotAfter: time.Unix(4000000000, 0),
+			IsCA: true, BasicConstraintsValid: true, KeyUsage: x509.KeyUsageCertSign,
+		}
+		caDER, err := x509.CreateCertificate(rand.Reader, caT, caT, ca.pub, ca.key)
+		if err != nil {
+			panic(err)
+		}
+		writePEM(filepath.Join(out, ca.name+".cert.pem"), "CERTIFICATE", caDER)
+		l := leaves[i]
+		k, _ := ecdsa.GenerateKey(l.curve, rand.Reader)
+		pad := make([]byte, l.pad)
+		for j := range pad {
+			pad[j] = 'x'
+		}
+		t := &x509.Certificate{
+			SerialNumber: big.NewInt(int64(200 + i)), Subject: pkix.Name{CommonName: l.hosts[0], Organization: []string{"verif" + string(pad)}},
+			NotBefore: time.Unix(1500000000, 0), NotAfter: time.Unix(4000000000, 0),
+			DNSNames: l.hosts, KeyUsage: x509.KeyUsageDigitalSignature,
+		}
+		der, err := x509.CreateCertificate(rand.Reader, t, caT, &k.PublicKey, ca.key)
+		if err != nil {
+			panic(err)
+		}
+		writePEM(filepath.Join(out, l.name+".cert.pem"), "CERTIFICATE", der)
+		kd, _ := x509.MarshalECPrivateKey(k)
+		writePEM(filepath.Join(out, l.name+".key.pem"), "EC PRIVATE KEY", kd)
+		fmt.Println(l.name, len(der), "issued by", ca.name, len(caDER))
+	}
+}
+
 func main() {
 	out := os.Args[1]
+	if len(os.Args) > 2 && os.Args[2] == "extra" {
+		extra(out)
+		return
+	}
 	caKey, _ := ecdsa.GenerateKey(elliptic.P256(), rand.Reader)
 	caT := &x509.Certificate{
 		SerialNumber: big.NewInt(1), Subject: pkix.Name{CommonName: "verif sim CA"},
